@@ -51,6 +51,14 @@ func addMacro(s *object.Environment, stmt ast.Node) {
 	macroLiteral, _ := assign.Right.(*ast.MacroLiteral)
 	name := assign.Left.(*ast.Identifier).Literal()
 
+	if object.Constant(name) {
+		if _, exists := s.Get(name); exists {
+			// An all-caps name is a constant: it keeps its first definition. (Set() would compare the two
+			// macro objects to allow an identical redefinition, and Cmp panics on macros.)
+			log.Warnf("Not redefining constant macro %s", name)
+			return
+		}
+	}
 	macro := &object.Macro{
 		Parameters: macroLiteral.Parameters,
 		Env:        s,
